@@ -186,6 +186,15 @@ class _Match(Generic[AnyStr]):
     def match(self, root_dir: AnyStr | None = None, dir_fd: int | None = None) -> bool:
         """Match."""
 
+        # Exclusion patterns alone never reach the regular expression engine's own type check
+        patterns = self.include or self.exclude
+        if patterns and not isinstance(patterns[0].pattern, type(self.filename)):
+            raise TypeError(
+                "The filename and pattern should be of the same type, not {} and {}".format(
+                    type(self.filename), type(patterns[0].pattern)
+                )
+            )
+
         if self.real:
             if isinstance(self.filename, bytes):
                 root = root_dir if root_dir is not None else b'.'  # type: AnyStr
@@ -199,13 +208,6 @@ class _Match(Generic[AnyStr]):
                 raise TypeError(
                     "The filename and root directory should be of the same type, not {} and {}".format(
                         type(self.filename), type(root_dir)
-                    )
-                )
-
-            if self.include and not isinstance(self.include[0].pattern, type(self.filename)):
-                raise TypeError(
-                    "The filename and pattern should be of the same type, not {} and {}".format(
-                        type(self.filename), type(self.include[0].pattern)
                     )
                 )
 
